@@ -1,4 +1,5 @@
 (* Props/C02.v — property C02: each scenario attempt emits the canonical, declaration-ordered event sequence. *)
+From CV Require Proofs.Compose2.
 From CV Require Import Model.Base Model.Events Model.Attempt Model.AttemptSpec Proofs.BaseP Proofs.AttemptP.
 From CV Require Model.Sched Proofs.SchedP9.
 
@@ -32,3 +33,30 @@ Theorem C02_canonical_in_every_interleaving :
 Proof.
   intros c ls s tr k i H L. rewrite (SchedP9.attempt_projection c ls s tr k H), L. apply attempt_wf.
 Qed.
+
+
+(* ---------- with the attempt's labels tied to the attempt model (review finding H2): for every run of the scheduler
+   whose attempt labels are executions of `run_attempt` (`Compose2.faithful`), the events of EVERY ended attempt, projected
+   out of the interleaved stream, are exactly the attempt model's events — hence canonical; an attempt in flight has
+   emitted a prefix of a canonical sequence *)
+Theorem C02_stream_carries_the_attempt :
+  forall c ls s tr inp k b,
+    Sched.exec c ls = Some (s, tr) -> Compose2.faithful inp ls -> In (Sched.LAttEnd k b) ls ->
+    SchedP9.out_evs k tr = ao_events (run_attempt (inp k)) /\ b = ao_failed (run_attempt (inp k)).
+Proof. exact Compose2.stream_carries_the_attempt. Qed.
+Print Assumptions C02_stream_carries_the_attempt.
+
+Theorem C02_canonical_in_every_interleaving_of_a_faithful_run :
+  forall c ls s tr inp k b,
+    Sched.exec c ls = Some (s, tr) -> Compose2.faithful inp ls -> In (Sched.LAttEnd k b) ls ->
+    wf_events (is_some (ai_before (inp k))) (is_some (ai_after (inp k))) (all_decl (inp k)) (SchedP9.out_evs k tr) = true.
+Proof. exact Compose2.canonical_in_every_interleaving_faithful. Qed.
+Print Assumptions C02_canonical_in_every_interleaving_of_a_faithful_run.
+
+Theorem C02_attempt_in_flight_has_emitted_a_canonical_prefix :
+  forall c ls s tr inp k,
+    Sched.exec c ls = Some (s, tr) -> Compose2.faithful inp ls ->
+    exists full, Compose2.is_prefix (SchedP9.out_evs k tr) full /\
+      wf_events (is_some (ai_before (inp k))) (is_some (ai_after (inp k))) (all_decl (inp k)) full = true.
+Proof. exact Compose2.canonical_prefix_in_every_interleaving_faithful. Qed.
+Print Assumptions C02_attempt_in_flight_has_emitted_a_canonical_prefix.
